@@ -79,7 +79,20 @@ def _pos_case(rng, style, max_depth, max_stmts, empty_blocks, tag):
             'kinds': [t.kind for t in prog.toks], 'gen': tag}
 
 
+def _time_cases(ctx):
+    for n in range(4, ctx.pick(41, 61), 2):
+        yield {'kind': 'time', 'family': 'open-comment-newlines', 'n': n, 'text': 'x = 1; /*' + '\n' * n}
+        yield {'kind': 'time', 'family': 'open-comment-star-newline', 'n': n, 'text': '/*' + '*\n' * n}
+    sizes = ctx.pick([40, 400, 2000, 5000], [40, 400, 2000, 5000, 20000])
+    for n in sizes:
+        for name, text in G.adversarial(n):
+            yield {'kind': 'time', 'family': name, 'n': n, 'text': text}
+
+
 def generate(ctx):
+    # time families first: a super-linear rule shows up on them at once (and would slow every later case)
+    for c in _time_cases(ctx):
+        yield c
     rng = ctx.rng.fork('pos')
     n_pos = ctx.pick(2600, 40000)
     for i in range(n_pos):
@@ -101,14 +114,6 @@ def generate(ctx):
             pl = G.layout(r, prog, r.choice(['wild', 'plain', 'plain', 'tight']))
             kind, text = G.mutate(r, prog, pl)
             yield {'kind': 'total', 'stream': 'mutation:' + kind, 'text': text}
-    # time
-    sizes = ctx.pick([40, 400, 2000, 5000], [40, 400, 2000, 5000, 20000])
-    for n in sizes:
-        for name, text in G.adversarial(n):
-            yield {'kind': 'time', 'family': name, 'n': n, 'text': text}
-    for n in range(4, ctx.pick(41, 61), 2):
-        yield {'kind': 'time', 'family': 'open-comment-newlines', 'n': n, 'text': 'x = 1; /*' + '\n' * n}
-        yield {'kind': 'time', 'family': 'open-comment-star-newline', 'n': n, 'text': '/*' + '*\n' * n}
 
 
 def search(ctx, broken):
